@@ -38,7 +38,19 @@ PROPS["C18"] = dict(
                 "rounding in front of the integer codec is modelled in an exact binary64 softfloat and every sampled implementation output is "
                 "compared in Lean with (a) the code of the exact containing cell and (b) the modelled cell; decoders are compared on accept/reject, "
                 "precision and value. Harness oracles on the implementation: alphabet, prefix law, decode∘encode, re-encode, case-insensitivity, "
-                "accepted-string-is-a-code, outputs untouched on throw."),
+                "accepted-string-is-a-code, outputs untouched on throw. "
+                "Added (all inputs, proved): the rounding theory of the executable binary64 model (Proofs/Round53.lean: roundTo_spec, roundTo_halfulp, "
+                "round53_relerr, roundTo_mono, roundTo_idem, round53_int, RoundSpec round53) and, from it, gars_scale_contains / georef_scale_contains "
+                "(the coded cell is the exact cell of the prepared point or, only when the rounded product is exactly the next integer, its upper "
+                "neighbour: class F2), gars_scale_shape, gars_scale_exact_of_representable; integer round trips digits_readback (every table), "
+                "gars_decode_encode (all cells, precisions, centerp) and geohash_decode_encode / geohash_decode_encode46 (all cells, all lengths). "
+                "geohash_scale_contains (division-based scale step: Dy.divTo is proved to be the correctly rounded quotient, Proofs/DivTo.lean divTo_isRN; the "
+                "constants 180/2^45, 90/2^45, the pole adjustment and the addition of 2^45 are proved exact). "
+                "End to end on the exact cell: gars_cell_contains, georef_cell_contains (prec 2..11) and geohash_cell_contains (the decoded cell of the exact code contains the prepared point, "
+                "every accepted finite position, every precision/length). "
+                "Georef integer round trip for every cell and precision: georef_decode_encode_tile / _degree / _long (the digit loop of Reverse is "
+                "turned into a fold, Proofs/GeorefLoop.lean, and evaluated on the digits of the encoder for all prec 2..11). "
+                "osgb_tile_contains covers the first OSGB scale step (x / tile, floor). Not proved: the later steps of the multi-step OSGB scale; decode∘encode for OSGB (its Reverse is floating point; correspondence only)."),
     level_note=("alphabets and integer constants of all four classes regenerated from the sources each run; hand-written models of Forward/Reverse; "
                 "pow(10,k) and integer→double conversions assumed exact (they are, for the ranges used)"),
     technique="Lean 4 proof of the integer codecs + exact-arithmetic correspondence of the scaling step and decoders against the implementation",
@@ -77,7 +89,11 @@ PROPS["C05"] = dict(
                 "bounds evaluates (in the binary64 model, inside the kernel) to the table in the source comment, UTMRow returns the unique allowed "
                 "row congruent to the row letter (or 100), digit truncation/prefix laws, Reverse∘Forward on the integer level. The executable model "
                 "of Forward (both overloads), Reverse, CheckCoords and UTMRow is compared exactly with the implementation on every sampled input; "
-                "round trip, re-encode, prefix law, band letter vs latitude, block/band geography and outputs-untouched are oracles on the implementation."),
+                "round trip, re-encode, prefix law, band letter vs latitude, block/band geography and outputs-untouched are oracles on the implementation. "
+                "Added (proved, all UTM zones 1..60, bands, tiles, precisions 0..11, centerp): reverse_forward_utm with encodeInt_utm and decode_utm — "
+                "when Forward's own band/row consistency test passes it writes utmString, and Reverse of that string returns the same zone, the band's "
+                "hemisphere, the precision and tile+digits of the same square (northing tile re-expressed in the band's hemisphere); "
+                "and reverse_forward_ups with encodeInt_ups / decode_ups for both poles and every tile of the UPS range."),
     level_note=("MGRS letter tables and constants regenerated from MGRS.cpp/MGRS.hpp each run; hand-written model of the control flow; the latitude used "
                 "by the lat-less overload when its cheap bounds straddle a band edge is a kernel value supplied by UTMUPS::Reverse"),
     technique="Lean 4 proof (decide +kernel over the finite tables, induction for digit laws) + exact model/implementation correspondence",
@@ -119,7 +135,11 @@ PROPS["C20"] = dict(
                 "term, in all cache modes (induction over histories); stencil indices stay in bounds; the interior cubic table reproduces every cubic and "
                 "solves the weighted normal equations. Hypotheses (cell location inside the raster, cache window within one period) are checked by the "
                 "driver on every query/CacheArea of the run. The stateful model executes every sampled history against the implementation; "
-                "bit-for-bit independence of history and cache mode is also checked implementation-vs-implementation."),
+                "bit-for-bit independence of history and cache mode is also checked implementation-vs-implementation. "
+                "Added (proved, all positions, every raster width 2 ≤ w ≤ 2^31): concrete_envOK / concrete_run_eq_spec — the binary64 cell location "
+                "⌊lon·rnd(w/360)⌋ wrapped by ±w stays in [0, w), from the monotonicity of correct rounding (Proofs/RoundQ.lean IsRN.mono, "
+                "Proofs/DivTo.lean divTo_isRN, Proofs/GeoidLoc.lean locF_ix_range); the location hypothesis of EnvOK is thereby discharged for the "
+                "executed model (the cache-window hypothesis WindowOK remains checked per CacheArea)."),
     level_note=("cubic tables and table sizes regenerated from Geoid.cpp each run; hand-written model of height / rawval / CacheArea; iostream header parsing "
                 "is modelled only structurally (the harness composes the header from fields)"),
     technique="Lean 4 proof by induction over operation histories (refinement to a state-free spec) + exact model/implementation correspondence",
